@@ -84,6 +84,11 @@ def oracle(prog, steps, lines):
     return fails
 
 
+def top_async(views):
+    """an async component outside every boundary"""
+    return any(v[0] == "async" or (v[0] == "el" and top_async(v[2])) for v in views)
+
+
 def main(argv):
     a, seed = vlib.args(argv)
     chk = vlib.Check(PID, a.tier, seed, "proof")
@@ -195,6 +200,10 @@ def main(argv):
             inp = " ".join(susrender.sx(v) for v in vs)
             if fails:
                 lfail.append({"program": inp, "schedule": str(sched), "failures": fails[:4], "output": susrender.model_lines(obs, sched)})
+            elif top_async(susrender.model_view(vs)):
+                # the translation puts an async component outside every boundary (the flip sits in the removed region): Stream.v does
+                # not wait for those (hypothesis of its theorems); oracle only
+                pass
             elif susrender.normalize_model(lmodel[i])[1] != susrender.model_lines(obs, sched)[1]:
                 mism.append({"program": inp, "schedule": str(sched), "impl": susrender.model_lines(obs, sched)[1], "model": lmodel[i][1]})
                 broken.append("correspondence (blocking render, content removed from outside): " + inp)
